@@ -166,7 +166,8 @@ class Judge:
     def record(self, rec, where, vec=None):
         """one completed or failed execution; returns True if it completed normally"""
         if rec.get('err'):
-            self.unmaterialised[rec['err'][:60]] += 1
+            if not rec['err'].startswith('n/a'):          # shape without a meaning on this channel
+                self.unmaterialised[rec['err'][:60]] += 1
             return False
         self.evaluated += 1
         self.outcomes[(rec['c'], rec['o'])] += 1
@@ -587,6 +588,11 @@ def run(ck, tier):
         # every configuration is also applied to a workflow that HAS a diagnostic (the `ignore` patterns are only
         # used then); these copies are judged by their outcome class alone
         vecs += [dict(v, mode='dirty') for v in vecs if v['ch'] == 'config']
+        # multi-byte text in front of a diagnosed position: the crash sites are in the OUTPUT path, so these vectors are run
+        # through the default (snippet) output and through templates that use the snippet
+        for v in [v for v in vecs if v['mut'] == 'mbyte']:
+            v['fmt'] = ''
+            vecs += [dict(v, fmt='json'), dict(v, fmt='sarif')]
         # anchor cycles in a called workflow are run through both derivations of its interface (file and AST)
         vecs += [dict(v, mode='' if v['mode'] == 'both' else 'both') for v in vecs if v['ch'] == 'reusable' and v['mut'] == 'cycle']
         outs = run_vectors(sd, export_path, vecs, 'vec-' + cfg.split('.')[0])
